@@ -401,11 +401,26 @@ def rule_ctx2(ctx: Ctx, extra_modules=()) -> RuleResult:
                 rr.ob(m.relpath, where, norm(n), "context manager instance is the context expression of a `with`",
                       DISCHARGED, "factory: the instance is returned to the caller, whose use is checked", n.lineno,
                       trivial=True)
+            elif fi is not None and isinstance(parent, ast.Assign) and len(parent.targets) == 1 and \
+                    isinstance(parent.targets[0], ast.Name) and _only_used_as_with_item(fi, parent.targets[0].id):
+                rr.ob(m.relpath, where, norm(n), "context manager instance is the context expression of a `with`",
+                      DISCHARGED, f"bound to `{parent.targets[0].id}`, whose only use is as a `with` item", n.lineno)
             else:
                 rr.ob(m.relpath, where, norm(n), "context manager instance is the context expression of a `with`",
                       VIOLATED, "instance created but not entered through `with`: enter/exit pairing is not guaranteed",
                       n.lineno)
     return rr
+
+
+def _only_used_as_with_item(fi: FuncInfo, name: str) -> bool:
+    uses = [x for x in walk_no_nested(fi.node) if isinstance(x, ast.Name) and x.id == name and isinstance(x.ctx, ast.Load)]
+    if not uses:
+        return False
+    for u in uses:
+        par = fi.module.parents.get(u)
+        if not (isinstance(par, ast.withitem) and par.context_expr is u):
+            return False
+    return True
 
 
 def rule_ctx3(ctx: Ctx) -> RuleResult:
@@ -423,8 +438,14 @@ def rule_ctx3(ctx: Ctx) -> RuleResult:
     rr.analysed += [f.key for f in readers]
     # functions that contain a `with <factory>()` block and pass a non-trivial mapping
     for f in ctx.prog.all_funcs():
-        withs = [n for n in walk_no_nested(f.node) if isinstance(n, ast.With) and any(
-            isinstance(i.context_expr, ast.Call) and _is_cm_call(ctx, f, i.context_expr, cms, fac) for i in n.items)]
+        def _is_cm_item(i):
+            e = i.context_expr
+            if isinstance(e, ast.Name):
+                defs = [d for d in walk_no_nested(f.node) if isinstance(d, ast.Assign) and any(
+                    isinstance(t, ast.Name) and t.id == e.id for t in d.targets)]
+                return any(isinstance(d.value, ast.Call) and _is_cm_call(ctx, f, d.value, cms, fac) for d in defs)
+            return isinstance(e, ast.Call) and _is_cm_call(ctx, f, e, cms, fac)
+        withs = [n for n in walk_no_nested(f.node) if isinstance(n, ast.With) and any(_is_cm_item(i) for i in n.items)]
         if not withs:
             continue
         inside = set()
@@ -434,6 +455,8 @@ def rule_ctx3(ctx: Ctx) -> RuleResult:
                     inside.add(id(x))
         for n in walk_no_nested(f.node):
             if not isinstance(n, ast.Call) or any(n is i.context_expr for w in withs for i in w.items):
+                continue
+            if _is_cm_call(ctx, f, n, cms, fac):
                 continue
             tgs = [t for t in ctx.cg.resolve_call(f, f.module, n) if isinstance(t, FuncInfo)]
             reach = ctx.cg.reachable(tgs, byname=True) if tgs else set()
